@@ -38,6 +38,7 @@ Ar == INSTANCE FPArith
 St == INSTANCE FPStrings
 Cv == INSTANCE FPConvert
 Ty == INSTANCE FPTypes
+Tm == INSTANCE FPTemporal
 
 EOk(items) == [k |-> "ok", items |-> items]
 EErr == [k |-> "err"]
@@ -115,6 +116,20 @@ OfWitness(w) ==
   IF w.k = "val" THEN (IF w.orEmpty \/ w.orErr THEN EAny ELSE EOk(<<ItemOfW(w)>>))
   ELSE IF w.orErr THEN EAny ELSE EOk(<<>>)
 
+(* Date/DateTime/Time plus or minus a quantity (C09).  The quantity item must carry its unit as a TLA+ string  *)
+(* (field u) and its amount in thousandths (th): literals of the machine do.  One answer where FPTemporal gives   *)
+(* one: a calendar keyword unit that applies to the value, no overflow of the year range.  Left open: UCUM units  *)
+(* (an error is permitted), calendar units on a Time, and a Date with an amount below a day (a recorded finding). *)
+IsTemporal(v) == v.t \in {"date", "dt", "time"}
+TemporalArith(op, a, b) ==
+  IF ~Has(b, "u") THEN EAny
+  ELSE IF ~Tm!IsTemporalUnit(b.u) THEN EErr
+  ELSE LET rank == Tm!RankOf(b.u) IN
+       IF Tm!ClsOf(b.u) = "ucum" \/ Tm!TimeHasNoUnit(a, rank) \/ (a.t = "date" /\ rank \in {"hour", "minute", "second", "ms"}) THEN EAny
+       ELSE LET R == Tm!Results(a, op, rank, b.th) IN
+            IF \E r \in R : r.oob THEN EAny
+            ELSE LET its == {r.v : r \in R} IN IF Cardinality(its) = 1 THEN EOk(<<CHOOSE v \in its : TRUE>>) ELSE EAny
+
 (* binary arithmetic on evaluated operands (item sequences) *)
 ArithBin(op, l, r) ==
   IF Len(l) > 1 \/ Len(r) > 1 THEN EAny
@@ -124,6 +139,7 @@ ArithBin(op, l, r) ==
        IN IF IsNum(a) /\ IsNum(b) THEN (IF op = "/" THEN EAny        \* any decimal within the 16-place tolerance is permitted
                                           ELSE OfWitness(Ar!WBin(op, Ar!NumOfItem(a), Ar!NumOfItem(b))))
           ELSE IF op = "+" /\ a.t = "s" /\ b.t = "s" THEN EOk(<<S(a.cp \o b.cp)>>)
+          ELSE IF op \in {"+", "-"} /\ IsTemporal(a) /\ b.t = "q" THEN TemporalArith(op, a, b)
           ELSE EAny
 
 (* `&`: empty counts as the empty string *)
